@@ -6,6 +6,7 @@ package zoo
 import (
 	"errors"
 	"fmt"
+	"sort"
 	"strings"
 	"sync"
 	"sync/atomic"
@@ -36,6 +37,20 @@ type Query {
   box(in: Box): String
   ghost: String
   countdown(n: Int): String
+  search(opts: Opts): String
+}
+
+input Opts {
+  page: Page = {size: 10}
+  tags: [String] = ["a", "b"]
+  any: [Page!] = [{size: 1}, {}]
+  text: String
+}
+
+input Page {
+  size: Int
+  offset: Int = 0
+  order: Kind = SMALL
 }
 
 input Box {
@@ -189,6 +204,44 @@ func (q *Query) Box(in *BoxIn) string {
 	return fmt.Sprintf("%s%v", in.Name, in.D)
 }
 
+// Search takes an input object (unregistered: a map) whose fields have object and list defaults.
+func (q *Query) Search(opts map[string]interface{}) string {
+	called("Query.Search")
+	keys := make([]string, 0, len(opts))
+	for k := range opts {
+		keys = append(keys, k)
+	}
+	sort.Strings(keys)
+	var b strings.Builder
+	for _, k := range keys {
+		fmt.Fprintf(&b, "%s=%v;", k, renderSorted(opts[k]))
+	}
+	return b.String()
+}
+
+func renderSorted(v interface{}) string {
+	switch t := v.(type) {
+	case map[string]interface{}:
+		keys := make([]string, 0, len(t))
+		for k := range t {
+			keys = append(keys, k)
+		}
+		sort.Strings(keys)
+		s := "{"
+		for _, k := range keys {
+			s += k + ":" + renderSorted(t[k]) + " "
+		}
+		return s + "}"
+	case []interface{}:
+		s := "["
+		for _, e := range t {
+			s += renderSorted(e) + " "
+		}
+		return s + "]"
+	}
+	return fmt.Sprint(v)
+}
+
 // Fail always fails.
 func (q *Query) Fail() (string, error) { return "", fmt.Errorf("always fails") }
 
@@ -298,6 +351,10 @@ var Requests = []struct {
 	{`{ add(a: 1, b: 2) }`, nil},
 	{`{ box(in: {d: [1, 2], name: "n"}) }`, nil},
 	{`{ ghost name }`, nil},
+	{`{ search(opts: {}) }`, nil},
+	{`{ search(opts: {text: "x", page: {size: 3}}) s2: search(opts: {any: [{}]}) }`, nil},
+	{`query($o: Opts = {text: "d"}) { search(opts: $o) }`, nil},
+	{`query($o: Opts) { search(opts: $o) }`, map[string]interface{}{"o": map[string]interface{}{"tags": []interface{}{"v"}}}},
 	{`{ countdown(n: 3) name }`, nil},
 	{`{ items { id ghost } count }`, nil},
 	{`{ name g: ghost items { g2: ghost } }`, nil},
